@@ -231,6 +231,58 @@ theorem keepalive_bills_since_previous (p p1 : Pool) (sigOk : Bool) (id : String
   · cases hu
   · cases hu; simp [get_set_eq, Except.toOption]
 
+/-- **a (re)connect restarts the billing clock**: whenever the registration got as far as storing the node - the
+connect was accepted, or refused only for a low balance - the node's `LastSeen` is the pool's clock reading of that
+connect, whatever was recorded before; by `keepalive_bills_since_previous` the next keep-alive then bills from the
+connect, not from the time the node was last seen before it went away. -/
+theorem connect_restarts_billing_clock (p : Pool) (conn : Option String) (src id : String) (req : Pool.ConnectReq) (now : Int)
+    (h : (p.connect conn src id req now).2 = .ok () ∨ ∃ c m, (p.connect conn src id req now).2 = .error (.lowBalance c m)) :
+    ((p.connect conn src id req now).1.store.getNode id).toOption.map (·.lastSeen) = some now := by
+  unfold Pool.connect at h ⊢
+  simp only at h ⊢
+  split at h
+  · rename_i e he
+    -- the registration step only fails for want of a connection or of a usable address
+    rcases h with h | ⟨c, m, h⟩
+    · cases h
+    · cases h
+      exfalso
+      split at he
+      · split at he
+        · cases he
+        · split at he
+          · cases he
+          · split at he <;> cases he
+      · cases he
+  · rename_i p1 node hreg
+    have hnode : node.id = id ∧ node.lastSeen = now := by
+      split at hreg
+      · split at hreg
+        · cases hreg
+        · split at hreg
+          · cases hreg
+          · split at hreg
+            · cases hreg
+            · cases hreg; exact ⟨rfl, rfl⟩
+      · cases hreg; exact ⟨rfl, rfl⟩
+    cases hs : p1.store.setNode node with
+    | error e =>
+      simp only [hs] at h
+      rcases h with h | ⟨c, m, h⟩ <;> cases h
+    | ok s =>
+      simp only [hs]
+      have hget : s.nodes.get id = some node := by
+        unfold Store.setNode at hs
+        split at hs
+        · cases hs
+        · cases hs; rw [← hnode.1]; exact get_set_eq _ _ _
+      have : ∀ (x : Pool × Except PoolErr Unit), x.1.store = s →
+          (x.1.store.getNode id).toOption.map (·.lastSeen) = some now := by
+        intro x hx
+        rw [hx, Store.getNode, hget]
+        simp [Except.toOption, hnode.2]
+      split <;> exact this _ rfl
+
 /-- a refused keep-alive (bad signature or nonce) leaves every balance and every `LastSeen` untouched -/
 theorem refused_keepalive_moves_nothing (p : Pool) (id : String) (nonce : Int) (reported : List String)
     (block : Nat) (now mnow : Int) (fail : Nat → Bool) (e : PoolErr)
